@@ -88,6 +88,10 @@ def test_fieldmodel_regex_beyond_ascii():
     check("rx-set-does-not-reach", FM.regex_prefix_match("[a-z]", "ä"), False)
     check("rx-negated-set", FM.regex_prefix_match("[^a-z]", "Ω"), True)
     check("rx-outside-subset", FM.regex_prefix_match("ß", "ß"), None)
+    check("rx-dot-no-line-feed", FM.regex_prefix_match("id.[0-9]+", "id\n17"), False)
+    check("rx-dot-carriage-return", FM.regex_prefix_match("id.[0-9]+", "id\r17"), True)
+    check("rx-end-before-line-feed", FM.regex_prefix_match("ab$", "ab\ncd"), True)
+    check("rx-end-not-before-letter", FM.regex_prefix_match("ab$", "abc"), False)
 
 
 def test_dataformatmodel_encodings():
